@@ -8,12 +8,15 @@ package main
 //  C. release: histories on a puppet node; after a process terminated its name, aliases, events are gone and
 //     claimable, it is in no listing and in no link/monitor relation as target or as requester
 //     (queried through the node's own TargetManager instance).
+//  D. registration vs termination (K3): node.RegisterName(name, pid) by a third party parked between its steps while
+//     the process is killed and unregistered; afterwards the name must not be held for a dead process.
 
 import (
 	"fmt"
 	"sort"
 	"strings"
 	"sync"
+	"time"
 
 	"ergo.services/ergo/gen"
 	"ergo.services/ergo/node"
@@ -35,6 +38,7 @@ func runC06(c *Ctx) {
 	c06ids(c, k)
 	c06names(c, k)
 	c06release(c, k)
+	c06regRace(c, k)
 }
 
 // NewK4tm starts a puppet node with an explicit TargetManager instance the harness can query.
@@ -472,4 +476,86 @@ func sortAliases(a []gen.Alias) {
 		}
 		return a[i].ID[0] < a[j].ID[0]
 	})
+}
+
+// c06regRace: K3 on node.RegisterName racing with the termination of the process the name is for. RegisterName is
+// parked after it has claimed the process ("regname:claimed") or after the table insert ("regname:stored"); the
+// process is killed and unregistered completely; RegisterName runs to its end. Whatever it returns, a terminated
+// process holds no name afterwards: the name resolves to nothing and can be claimed by another process.
+func c06regRace(c *Ctx, k *K4) {
+	r := c.R
+	rounds := c.N(2, 20)
+	for it := 0; it < rounds; it++ {
+		for _, parkAt := range []string{"regname:claimed", "regname:stored"} {
+			_, tpid, _ := k.Spawn("T", false, gen.ProcessOptions{}, "")
+			_, qpid, _ := k.Spawn("Q", false, gen.ProcessOptions{}, "")
+			name := k.NextName("c06race")
+			ctl := NewCtl("k3-no-process")
+			ctl.AddQueue(tpid)
+			ctl.On()
+			done := make(chan error, 1)
+			go func() { done <- k.Node.RegisterName(name, tpid) }()
+			stuck := ""
+			if !waitUntil(2*time.Second, func() bool { return len(ctl.Parked()) == 1 }) {
+				stuck = "RegisterName did not park"
+			}
+			var rname string
+			if stuck == "" {
+				rname = ctl.Parked()[0].name
+				ctl.Drain()
+				if parkAt == "regname:stored" {
+					if _, to, _, err := ctl.Step(rname); err != nil || to != "regname:stored" {
+						stuck = fmt.Sprintf("RegisterName did not reach %s (%v, %s)", parkAt, err, to)
+					}
+				}
+			}
+			if stuck == "" {
+				if _, err := ctl.Start("T", func() { k.Node.Kill(tpid) }); err != nil {
+					stuck = err.Error()
+				}
+				for i := 0; i < 8 && stuck == ""; i++ {
+					t := ctl.Find("T")
+					if t == nil || !t.parked {
+						break
+					}
+					if _, _, _, err := ctl.Step("T"); err != nil {
+						stuck = err.Error()
+					}
+				}
+			}
+			trace := append([]string(nil), ctl.Trace...)
+			ctl.ReleaseAll()
+			ctl.Close()
+			var regErr error
+			select {
+			case regErr = <-done:
+			case <-time.After(3 * time.Second):
+				stuck = "RegisterName did not return"
+			}
+			if stuck != "" {
+				r.Count("regrace.inconclusive")
+				r.Note("C06 regrace: %s", stuck)
+				k.Node.Kill(tpid)
+				k.Node.Kill(qpid)
+				continue
+			}
+			waitUntilGone(k, tpid)
+			k.Quiesce()
+			rp := map[string]interface{}{"parked_at": parkAt, "register_result": fmt.Sprint(regErr), "trace": trace}
+			// the name of a terminated process is gone: nobody is found under it and it can be claimed again
+			if err := k.Node.RegisterName(name, qpid); err != nil {
+				r.Violation("C06/name-not-claimable-after-termination", fmt.Sprintf("RegisterName(%s) raced with the termination of its process and returned %v: the process is gone, yet another process cannot claim the name (%v)", name, regErr, err), rp)
+				if pid, e2 := k.Node.UnregisterName(name); e2 == nil {
+					if _, e3 := k.Node.ProcessInfo(pid); e3 != nil {
+						r.Violation("C06/name-held-by-dead-process", fmt.Sprintf("the name %s is held by the terminated process %s", name, pid), rp)
+					}
+				}
+			}
+			r.Case(fmt.Sprintf("regrace/%s/%v", parkAt, regErr), true)
+			r.Count("regrace.rounds")
+			k.Node.Kill(qpid)
+			k.Quiesce()
+			k.resetPuppets()
+		}
+	}
 }
